@@ -77,6 +77,18 @@ CLAIMED = {
             "Trusted: TLC; the native reference value comes from the same C++ operator applied to a plain T in the "
             "harness. Not exhaustive above 16 bits. Little-endian host only.",
             "DESIGN.md 3.3"),
+    "C17": ("TLA+ definitions of token classification, C numeral grammar with unbounded (base-256 digit) magnitudes, "
+            "float literal grammar and the used-flag state machine (spec/Args): TLC checks the laws in small scope and "
+            "validates every recorded constructor/getter call (trace validation)",
+            "Every token list up to 2 (thorough 3) tokens over an 18-token grammar plus random longer lists, each with "
+            "a random getter sequence and assert_none_unused, with the implementation's used flags compared with the "
+            "model after every call; every integer text in [-1000,1000] (thorough [-70000,70000]) in four renderings and "
+            "~85 boundary/malformed texts against 8 integer types x 4 formats, interleaved so that texts that set ERANGE "
+            "precede valid ones; TLC decides value / invalid_argument / out_of_range / default for each.",
+            "Trusted: TLC; libc %.8e for the 9-digit rendering of returned doubles; classification and used flags are "
+            "read with -fno-access-control. 64-bit targets unconstrained for magnitudes >= 2^63 (as stated). "
+            "split_args tokenisation itself is decided under C08.",
+            "DESIGN.md 3.17"),
 }
 
 NOT_YET = "check not built yet in this round (planned: see DESIGN.md section 3)"
